@@ -163,6 +163,15 @@ func RunBatches(test string, res *Result, n int, par int, timeout time.Duration,
 		// Leave the parent-side result untouched; the process ends here.
 		os.Exit(0)
 	}
+	if ReplayFile() != "" {
+		// replay: run in-process so that the output is visible
+		for b := 0; b < n; b++ {
+			r := NewResult(res.Check)
+			fn(b, r, nil)
+			res.Merge(r)
+		}
+		return
+	}
 	if par <= 0 {
 		par = runtime.NumCPU()
 	}
@@ -318,4 +327,18 @@ func CaseReplay(i int, extra map[string]any) map[string]any {
 		m[k] = v
 	}
 	return m
+}
+
+// CaseRange returns the half-open range of case indices batch b runs when
+// every batch has per cases. In replay mode batch 0 runs exactly the recorded
+// case (whatever the scale of the run that found it) and other batches nothing.
+func CaseRange(check string, b, per int) (lo, hi int) {
+	loadReplay()
+	if ReplayFile() == "" {
+		return b * per, (b + 1) * per
+	}
+	if b != 0 || check != replayCheck || replayCase < 0 {
+		return 0, 0
+	}
+	return replayCase, replayCase + 1
 }
